@@ -56,7 +56,7 @@ Theorem initial_save loadable raw n d : good_input raw -> load_cnf loadable raw 
   forall s, cs_sat s (stored_set raw) = cs_sat s raw.
 Proof.
   intros HG Hl. split; [|apply stored_equiv_input; apply HG].
-  unfold load_cnf in Hl. destruct (loadable raw n); [|discriminate]. inversion Hl; subst d; clear Hl.
+  unfold load_cnf, load_cnf_with in Hl. destruct (loadable raw n); [|discriminate]. inversion Hl; subst d; clear Hl.
   unfold save_cnf. cbn [cached live_n live_of snd].
   destruct HG as [_ [_ Hne]]. destruct (stored_set raw) as [|c0 r0]; [exfalso; apply Hne; reflexivity|].
   reflexivity.
@@ -71,6 +71,23 @@ Theorem refines loadable raw n d cmds :
   (~ In APanic ans -> R loadable d' (m_run m0 cmds)).
 Proof.
   intros HG Hl m0. apply (run_refines loadable cmds d m0). apply load_R; assumption.
+Qed.
+
+(* the same with the repair proposed for K11 (the cache exists for every CNF input): the
+   hypothesis "stored set not empty" disappears *)
+Theorem refines_k11_repaired loadable raw n d cmds :
+  nzs raw -> (exists s0 : asg, cs_sat s0 raw = true) ->
+  load_cnf_with true loadable raw n = Some d ->
+  let m0 := m_init (stored_set raw) n in
+  let '(d', ans) := cc_run false loadable d cmds in
+  answers_ok loadable m0 cmds ans /\
+  (~ In APanic ans -> R loadable d' (m_run m0 cmds)).
+Proof.
+  intros Hnz Hsat Hl m0. apply (run_refines loadable cmds d m0).
+  apply (R_init_with loadable true raw n (stored_set raw) d Hl).
+  - left. reflexivity.
+  - intros s. symmetry. apply stored_equiv_input; assumption.
+  - intros x. tauto.
 Qed.
 
 (* a rejected clause-update changes nothing, an accepted one is the abstract update *)
